@@ -7,6 +7,7 @@ import (
 	"sort"
 	"strings"
 	"testing"
+	"time"
 
 	"github.com/google/badwolf/storage"
 	"github.com/google/badwolf/storage/memory"
@@ -41,6 +42,10 @@ type StoreCase struct {
 	LSeed  uint64    `json:"lseed"`  // seed for lookup argument / option sampling
 	LEvery int       `json:"levery"` // run the lookup oracle after every n-th op
 	Render []string  `json:"render,omitempty"`
+	// SlowMS > 0 (C02, C09): the case runs inside a synctest bubble and every consumer of lookup results pauses this
+	// many simulated milliseconds before each of its first two receives. How fast a caller drains a lookup is not part
+	// of what the lookup returns.
+	SlowMS int `json:"slowms,omitempty"`
 }
 
 type storeHarness struct{ prop string }
@@ -104,6 +109,9 @@ func (h *storeHarness) Gen(r *Rand, tier string, clean bool) any {
 			}
 		}
 		c.Ops = append(c.Ops, op)
+	}
+	if h.prop != "C01" && r.Chance(0.15) {
+		c.SlowMS = []int{300, 1500, 6000}[r.Intn(3)]
 	}
 	return c
 }
@@ -169,6 +177,27 @@ type handlePair struct {
 
 func (h *storeHarness) Run(t *testing.T, ci any) *Outcome {
 	c := ci.(*StoreCase)
+	if c.SlowMS <= 0 {
+		return h.run(t, c)
+	}
+	// slow consumers: the same sequential history on the bubble's fake clock (no real time passes)
+	var out *Outcome
+	drainPause, drainPausePlain = time.Duration(c.SlowMS)*time.Millisecond, true
+	msg := inBubble(t, func() { out = h.run(t, c) })
+	drainPause, drainPausePlain = 0, false
+	if msg != "" {
+		if strings.Contains(msg, "deadlock") {
+			return violation(h.prop+":hang-with-slow-consumer", "with consumers pausing %d simulated ms the history does not finish: %s", c.SlowMS, firstLines(msg, 6))
+		}
+		panic(msg)
+	}
+	if out != nil && out.Verdict == "ok" {
+		out.stat("probe_histories_with_slow_consumers", 1)
+	}
+	return out
+}
+
+func (h *storeHarness) run(t *testing.T, c *StoreCase) *Outcome {
 	o := okOutcome()
 	ctx := context.Background()
 	st := memory.NewStore()
